@@ -146,9 +146,11 @@ Definition rd_step (s : rdstate) (i : rdinput) : rdstate * list rdoutput :=
       let '(m', out) :=
         match p_get m a with
         | Some ps =>
+            (* let awaited = peer_set.remove(&family);   (fix C11-1) *)
+            let awaited := mem f ps in
             let ps' := fremove f ps in
             let m' := match ps' with [] => p_remove m a | _ => p_set m a ps' end in
-            (m', if any_has m' f then [] else [FamilyDeferralComplete f])
+            (m', if awaited && negb (any_has m' f) then [FamilyDeferralComplete f] else [])
         | None => (m, [])
         end in
       match m' with
@@ -169,6 +171,34 @@ Definition rd_step (s : rdstate) (i : rdinput) : rdstate * list rdoutput :=
   | Deferring m, TimerExpired => (Completed, [EndDeferral (all_fams m)])
   | Completed, _ => (Completed, [])
   | s, _ => (s, [])
+  end.
+
+(* The EorReceived arm as it was before the repair of finding C11-1 (the
+   FamilyDeferralComplete was emitted whether or not the family had still been
+   awaited from that peer).  Kept only for the witness lemma in
+   Proofs/Deferral.v; nothing else refers to it. *)
+Definition rd_step_unfixed (s : rdstate) (i : rdinput) : rdstate * list rdoutput :=
+  match s, i with
+  | Deferring m, EorReceived a f =>
+      let '(m', out) :=
+        match p_get m a with
+        | Some ps =>
+            let ps' := fremove f ps in
+            let m' := match ps' with [] => p_remove m a | _ => p_set m a ps' end in
+            (m', if any_has m' f then [] else [FamilyDeferralComplete f])
+        | None => (m, [])
+        end in
+      match m' with
+      | [] => (Completed, out ++ [EndDeferral []])
+      | _ => (Deferring m', out)
+      end
+  | _, _ => rd_step s i
+  end.
+
+Fixpoint rd_trace_unfixed (s : rdstate) (ins : list rdinput) : list (list rdoutput) :=
+  match ins with
+  | [] => []
+  | i :: r => snd (rd_step_unfixed s i) :: rd_trace_unfixed (fst (rd_step_unfixed s i)) r
   end.
 
 Fixpoint rd_run (s : rdstate) (ins : list rdinput) : rdstate :=
